@@ -6,6 +6,7 @@ import (
 	"context"
 	"fmt"
 	"io"
+	"os"
 	"runtime"
 	"sort"
 	"sync"
@@ -28,16 +29,28 @@ type injector struct {
 	fired  bool
 	fire   func()
 	done   chan struct{}
+	fault  bool // fault mode: the target-th file-system call fails once instead of firing thread B
 }
 
-func (in *injector) point() {
+var errInjected = fmt.Errorf("injected I/O error")
+
+// point returns true when the calling file-system operation must fail (fault mode).
+func (in *injector) point() bool {
 	in.mu.Lock()
 	if !in.active {
 		in.mu.Unlock()
-		return
+		return false
 	}
 	c := in.count
 	in.count++
+	if in.fault {
+		hit := c == in.target && !in.fired
+		if hit {
+			in.fired = true
+		}
+		in.mu.Unlock()
+		return hit
+	}
 	should := c == in.target && !in.fired && in.fire != nil
 	if should {
 		in.fired = true
@@ -51,6 +64,7 @@ func (in *injector) point() {
 		case <-time.After(25 * time.Millisecond):
 		}
 	}
+	return false
 }
 
 type hookFS struct {
@@ -64,7 +78,9 @@ type hookFile struct {
 }
 
 func (h hookFS) Open(name string, flag int) (xfs.File, error) {
-	h.in.point()
+	if h.in.point() {
+		return nil, errInjected
+	}
 	f, err := h.FS.Open(name, flag)
 	if err != nil {
 		return f, err
@@ -78,25 +94,79 @@ func (h hookFS) Sub(name string) (xfs.FS, error) {
 	}
 	return hookFS{FS: s, in: h.in}, nil
 }
-func (h hookFS) List(n string) ([]xfs.FileInfo, error) { h.in.point(); return h.FS.List(n) }
-func (h hookFS) Exists(n string) (bool, error)         { h.in.point(); return h.FS.Exists(n) }
-func (h hookFS) Remove(n string) error                 { h.in.point(); return h.FS.Remove(n) }
-func (h hookFS) Rename(a, b string) error              { h.in.point(); return h.FS.Rename(a, b) }
-func (h hookFS) Stat(n string) (xfs.FileInfo, error)   { h.in.point(); return h.FS.Stat(n) }
+func (h hookFS) List(n string) ([]xfs.FileInfo, error) {
+	if h.in.point() {
+		return nil, errInjected
+	}
+	return h.FS.List(n)
+}
+func (h hookFS) Exists(n string) (bool, error) {
+	if h.in.point() {
+		return false, errInjected
+	}
+	return h.FS.Exists(n)
+}
+func (h hookFS) Remove(n string) error {
+	if h.in.point() {
+		return errInjected
+	}
+	return h.FS.Remove(n)
+}
+func (h hookFS) Rename(a, b string) error {
+	if h.in.point() {
+		return errInjected
+	}
+	return h.FS.Rename(a, b)
+}
+func (h hookFS) Stat(n string) (xfs.FileInfo, error) {
+	if h.in.point() {
+		return nil, errInjected
+	}
+	return h.FS.Stat(n)
+}
 
-func (f hookFile) Read(p []byte) (int, error)              { f.in.point(); return f.File.Read(p) }
-func (f hookFile) ReadAt(p []byte, o int64) (int, error)   { f.in.point(); return f.File.ReadAt(p, o) }
-func (f hookFile) Write(p []byte) (int, error)             { f.in.point(); return f.File.Write(p) }
-func (f hookFile) WriteAt(p []byte, o int64) (int, error)  { f.in.point(); return f.File.WriteAt(p, o) }
-func (f hookFile) Truncate(n int64) error                  { f.in.point(); return f.File.Truncate(n) }
-func (f hookFile) Close() error                            { f.in.point(); return f.File.Close() }
+func (f hookFile) Read(p []byte) (int, error) {
+	if f.in.point() {
+		return 0, errInjected
+	}
+	return f.File.Read(p)
+}
+func (f hookFile) ReadAt(p []byte, o int64) (int, error) {
+	if f.in.point() {
+		return 0, errInjected
+	}
+	return f.File.ReadAt(p, o)
+}
+func (f hookFile) Write(p []byte) (int, error) {
+	if f.in.point() {
+		return 0, errInjected
+	}
+	return f.File.Write(p)
+}
+func (f hookFile) WriteAt(p []byte, o int64) (int, error) {
+	if f.in.point() {
+		return 0, errInjected
+	}
+	return f.File.WriteAt(p, o)
+}
+func (f hookFile) Truncate(n int64) error {
+	if f.in.point() {
+		return errInjected
+	}
+	return f.File.Truncate(n)
+}
+func (f hookFile) Close() error {
+	// a failed Close would leak the underlying handle of the in-memory FS: count the point, never fail it
+	f.in.point()
+	return f.File.Close()
+}
 
 var _ io.ReaderAt = hookFile{}
 
 // ---------------------------------------------------------------- cesium level
 func runCesiumInject(c tcase, target int, serialSkip [][]bool, serial bool) (obs runObs, points int) {
 	ctx := context.Background()
-	in := &injector{target: target}
+	in := &injector{target: target, fault: c.Mode == "fault"}
 	fs := hookFS{FS: xfs.NewMem(), in: in}
 	c2 := c
 	c2.GC = false
@@ -172,6 +242,10 @@ func runCesiumInject(c tcase, target int, serialSkip [][]bool, serial bool) (obs
 		fired, done := in.fired, in.done
 		points = in.count
 		in.mu.Unlock()
+		if in.fault {
+			// the other threads run after the faulted one: nothing may hang on a lock it leaked
+			fired = false
+		}
 		if fired {
 			select {
 			case <-done:
@@ -239,8 +313,8 @@ func domObserve(ctx context.Context, db *domain.DB) []chanObs {
 
 func domResolver(in *injector) domain.OffsetResolver {
 	return func(_ context.Context, domainStart telem.TimeStamp, ts telem.TimeStamp) (telem.Size, telem.TimeStamp, error) {
-		if in != nil {
-			in.point()
+		if in != nil && in.point() {
+			return 0, ts, errInjected
 		}
 		return telem.Size(ts - domainStart), ts, nil
 	}
@@ -308,7 +382,7 @@ func openDomain(fs xfs.FS, c tcase) (*domain.DB, error) {
 
 func runDomainInject(c tcase, target int, serialSkip [][]bool, serial bool) (obs runObs, points int) {
 	ctx := context.Background()
-	in := &injector{target: target}
+	in := &injector{target: target, fault: c.Mode == "fault"}
 	fs := hookFS{FS: xfs.NewMem(), in: in}
 	db, err := openDomain(fs, c)
 	if err != nil {
@@ -376,6 +450,10 @@ func runDomainInject(c tcase, target int, serialSkip [][]bool, serial bool) (obs
 		fired, done := in.fired, in.done
 		points = in.count
 		in.mu.Unlock()
+		if in.fault {
+			// the other threads run after the faulted one: nothing may hang on a lock it leaked
+			fired = false
+		}
 		if fired {
 			select {
 			case <-done:
@@ -486,6 +564,43 @@ func runStressCase(c tcase) result {
 			break
 		}
 	}
+	return r
+}
+
+// runFaultCase: thread A runs with ONE injected I/O error (its target-th file-system call or delete offset
+// resolver fails once), then the other threads run, the content is read, the database is closed and reopened.
+// Whatever the failed operation left behind, nothing may hang (a lock leaked on the error path) or panic.
+func runFaultCase(c tcase) result {
+	r := result{ID: c.ID}
+	run := runCesiumInject
+	if c.Level == "domain" {
+		run = runDomainInject
+	}
+	_, points := run(c, -1, nil, false)
+	target := 0
+	if points > 0 {
+		target = int(c.KFrac * float64(points))
+		if target >= points {
+			target = points - 1
+		}
+	}
+	r.Points, r.Target = points, target
+	done := make(chan runObs, 1)
+	go func() {
+		o, _ := run(c, target, nil, false)
+		done <- o
+	}()
+	select {
+	case o := <-done:
+		r.Conc = o
+	case <-time.After(40 * time.Second):
+		r.Conc.Stall = true
+		buf := make([]byte, 1<<20)
+		n := runtime.Stack(buf, true)
+		fmt.Fprintf(os.Stderr, "STALL (fault) case %d\n%s\n", c.ID, buf[:n])
+	}
+	r.Serial = r.Conc
+	r.Order = []int{0, 1}
 	return r
 }
 
